@@ -256,6 +256,9 @@ def run(ck: Checker):
     c05.check_per_run_state(ck, 'C03-7')
     c05.check_marker_identity(ck, 'C03-7')
     # ------------------------------------------------------------------ C03-9
+    ck.rule('C03-10', 'class collections given by the user reach isinstance as a class or a tuple: the operator methods whose parameters end up as the second argument of isinstance (filter_exceptions, peek) turn a list into a tuple first (ORIGIN)', minimum=3)
+    n10 = c03ops.check_classinfo_params(ck, 'C03-10', smod, 'Stream')
+    ck.need(n10 >= 3, f'only {n10} class-collection parameters reaching isinstance found in Stream')
     ck.rule('C03-9', 'buffer and parmap inside a chain: stopping the consumer stops the producer of a buffer (incremental consumption: the stop flag is set on every abnormal consumer exit and polled by the producer every iteration — the C05-3 obligations of Buffer / AsyncBuffer / SyncIter), and parmap hands on what the worker returned as a value whatever its type (the consumer-pairing obligations C01-3 of fifo_stream / async_fifo_stream)', minimum=8)
     from . import fifo
 
